@@ -27,7 +27,7 @@ from vlib import f2b, fs2b, b2f, b2fs
 from props import c01
 
 ID = "C18"
-GEN = ["LeavesAst", "Leaves", "DistAst", "VecAst", "SplineAst"]
+GEN = ["LeavesAst", "Leaves", "DistAst", "VecAst", "SplineAst", "TriAst"]
 RULE = ("[families] every family (Normal, LogNormal, Uniform, Gumbel, Cauchy, StudentT, Laplace, Exponential, Logistic and the eight standard bases) x "
         "private `_log_prob` and public `log_prob` x trainable leaves far from their initial values (loc up to 1e3, raw scale/df from -20 to 40) x inputs on the "
         "support ends, at loc (|.| at 0), outside the support, at magnitudes 1e3..1e300: value and d/dx, d/d(every trainable leaf) from the Float instance "
@@ -143,6 +143,7 @@ def corr(c, tier, rng):
     corr_mixture(c, tier, rng)
     corr_nets(c, tier, rng)
     corr_spline_nets(c, tier, rng)
+    corr_mvn(c, tier, rng)
 
 
 def cmp_pairs(c, name, pairs, **info):
@@ -608,6 +609,64 @@ def corr_spline_nets(c, tier, rng):
                 pairs = pairs[:1]
             cmp_pairs(c, "spline-network-ast-vs-jax.jacrev", pairs, kind=kind, activation=act, output=k, x=x, what=what)
         c.case(("spline-network", kind, act, tuple(x), i), True, sample={"op": line[:200], "model": got[:200]} if i % 80 == 0 else None)
+
+
+# ------------------------------------------------------------------ MultivariateNormal / TriangularAffine (Gen/TriAst.lean + Model/AdMvn.lean)
+_MVN_JIT = {}
+
+
+def mvn_build(loc, raw, arr):
+    n = len(loc)
+    d = D.MultivariateNormal(jnp.zeros(n), jnp.eye(n))
+    get = lambda t: (t.bijection.loc, t.bijection.triangular.kwargs["diag"].arr, t.bijection.triangular.kwargs["arr"])
+    return eqx.tree_at(get, d, (jnp.asarray(loc, float), jnp.asarray(raw, float), jnp.asarray(arr, float).reshape(n, n)))
+
+
+def mvn_real(mode, x, loc, raw, arr):
+    n = len(x)
+    if (mode, n) not in _MVN_JIT:
+        def f(x, loc, raw, arr):
+            d = mvn_build(loc, raw, arr)
+            if mode == "lp":
+                return d._log_prob(x)[None]
+            b = unwrap(d.bijection)
+            y, ld = b.inverse_and_log_det(x) if mode == "il" else b.transform_and_log_det(x)
+            return jnp.concatenate([y, ld[None]])
+        _MVN_JIT[(mode, n)] = (jax.jit(f), jax.jit(jax.jacrev(f, argnums=(0, 1, 2, 3))))
+    f, jf = _MVN_JIT[(mode, n)]
+    args = (jnp.asarray(x, float), jnp.asarray(loc, float), jnp.asarray(raw, float), jnp.asarray(arr, float).reshape(n, n))
+    return np.asarray(f(*args)), jf(*args)
+
+
+def corr_mvn(c, tier, rng):
+    jobs = []
+    for n in (1, 2, 3) if tier == "quick" else (1, 2, 3, 4, 5):
+        for rep in range(3 if tier == "quick" else 6):
+            loc = [rng.uniform(-3, 3) for _ in range(n)]
+            raw = [rng.choice([-20.0, -3.0, 0.0, 0.5413248546129181, 5.0, 40.0]) if rep else rng.uniform(-2, 2) for _ in range(n)]
+            arr = [rng.choice([0.0, -1.5, 2.0, 1e3]) if rep == 1 else rng.uniform(-2, 2) for _ in range(n * n)]
+            xs = [[rng.uniform(-3, 3) for _ in range(n)], list(loc), [0.0] * n, [1e6] * n, [-1e3] + [2.0] * (n - 1)]
+            for x in xs:
+                for mode in ("lp", "il", "tl"):
+                    jobs.append((mode, x, loc, raw, arr))
+    lines = [f"admvn {m} {fs2b(x)} {fs2b(loc)} {fs2b(raw)} {fs2b(arr)}" for m, x, loc, raw, arr in jobs]
+    outs = vlib.run_model(lines)
+    for i, ((mode, x, loc, raw, arr), line, got) in enumerate(zip(jobs, lines, outs)):
+        if got.startswith("ERR"):
+            c.mismatch("mvn-ast-vs-jax.jacrev", op=line[:300], model=got)
+            continue
+        val, js = mvn_real(mode, x, loc, raw, arr)
+        allfinite = bool(np.all(np.isfinite(val)))
+        n = len(x)
+        c.count(f"mvn:{mode}:n={n}")
+        for k, part in enumerate(got.split(" | ")):
+            t = part.split()
+            pairs = [("value", b2f(t[0]), float(val[k]))]
+            if allfinite:
+                for nm, col, J in (("dx", 2, js[0]), ("dloc", 3, js[1]), ("draw_diag", 4, js[2]), ("darr", 5, js[3])):
+                    pairs += [(f"{nm}[{j}]", a, float(np.asarray(J[k]).reshape(-1)[j])) for j, a in enumerate(b2fs(t[col]))]
+            cmp_pairs(c, "mvn-ast-vs-jax.jacrev", pairs, mode=mode, output=k, x=x, loc=loc, raw=raw, arr=arr)
+        c.case(("mvn", mode, tuple(x), tuple(raw), tuple(arr)), True, sample={"op": line[:200], "model": got[:200]} if i % 60 == 0 else None)
 
 
 def corr_leaves(c, tier, rng):
